@@ -32,7 +32,8 @@ for f in files:
 def section(s,pid):
     i=s.find('### %s — as built'%pid)
     if i<0: return None,None
-    m=re.search(r'\n### C\d\d — as built', s[i+10:]); j=i+10+m.start() if m else len(s)
+    # the section ends at the next as-built heading OR at the next '#'/'##' heading (C15's section sits before '# AS BUILT')
+    m=re.search(r'\n(### C\d\d — as built|# |## )', s[i+10:]); j=i+10+m.start() if m else len(s)
     return i,j
 ad=open(A+'/DESIGN.md').read(); vd=open(V+'/DESIGN.md').read()
 am=open(A+'/mkmanifest.py').read(); vm=open(V+'/mkmanifest.py').read()
